@@ -136,15 +136,30 @@ type myErr struct{}
 
 func (myErr) Error() string { return "e" }
 
+type myF float64
+type myC complex128
+
+func fmf() myF { note("fmf"); v := pf(cur.FV[cnt%len(cur.FV)]); cnt++; return myF(v) }
+
 type wr struct {
 	err error
 	buf []int
+	g   myF
 }
 
 func (w *wr) flush() { w.err = myErr{}; w.buf = []int{1} }
 func (w *wr) peek() int { return len(w.buf) }
 
 var gxs []int
+
+type obj struct {
+	f func(int) int
+	n int
+}
+
+var gf func(int) int = hi
+
+func hj(x int) int { note(fmt.Sprint("hj ", x)); return x * 3 }
 
 func setG() { gxs = []int{1} }
 
@@ -219,8 +234,9 @@ func main() {
 
 const unpack = "a, b, c, u, v, p, q, s, t, k, l, xs, bs, tm := i.A, i.B, i.C, i.U, i.V, pf(i.P), pf(i.Q), i.S, i.T, i.K, i.L, i.XS, []byte(i.BS), time.Unix(0, i.TM).UTC()\n" +
 	"\t_, _, _, _, _, _, _, _, _, _, _, _, _, _ = a, b, c, u, v, p, q, s, t, k, l, xs, bs, tm\n" +
-	"\tms, mi, mm, ma := myStr(s), myInts(xs), myMap{0: s, 1: t}, myArr{a, b, c}\n\tpa, w := &ma, &wr{}\n\tgxs = nil\n" +
-	"\t_, _, _, _, _, _ = ms, mi, mm, ma, pa, w\n"
+	"\tms, mi, mm, ma := myStr(s), myInts(xs), myMap{0: s, 1: t}, myArr{a, b, c}\n\tpa, w := &ma, &wr{}\n\tgxs, gf = nil, hi\n" +
+	"\tmf, mg, mc, mc2 := myF(p), myF(q), myC(complex(p, q)), myC(complex(q, p))\n\tfa := [2]myF{mf, mg}\n\tw.g = mg\n" +
+	"\t_, _, _, _, _, _, _, _, _, _, _ = ms, mi, mm, ma, pa, w, mf, mg, mc, mc2, fa\n"
 
 func caseFunc(kind, body string) string {
 	if kind == "stmts" {
@@ -324,6 +340,12 @@ func Grid(r *rand.Rand, text string, max int) []Input {
 	}
 	if used["mi"] {
 		used["xs"] = true
+	}
+	if used["mf"] || used["mg"] || used["mc"] || used["mc2"] || used["fa"] || used["w"] {
+		used["p"], used["q"] = true, true
+	}
+	if used["fmf"] {
+		used["ff"] = true
 	}
 	if used["ma"] || used["pa"] {
 		used["a"], used["b"], used["c"] = true, true, true
